@@ -224,6 +224,24 @@ int main(void)
 }
 #endif
 
+#ifdef OP_VALID_UXLEN
+/* xcm_addr_is_valid / xcm_addr_is_supported at the UX/UXF name limit: one CONSTANT address per obligation (PROTO ":" UXNAME,
+ * names of 106, 107, 108 bytes).  is_valid tries every transport's parser and each parser calls strlen in its loop conditions:
+ * over a symbolic string of this length, or even a symbolic length alone, the SAT solver runs out of 12 GB; on a string
+ * literal CBMC folds the whole computation. */
+int main(void)
+{
+    static const char in[] = PROTO ":" UXNAME;
+    size_t L = sizeof(UXNAME) - 1;
+    char name[120];
+    int prc = PFUN(in, name, sizeof(name));
+    CHECK((prc == 0) == (L <= 107), "C12: UX/UXF names up to 107 bytes are accepted by the parser, longer ones refused");
+    CHECK(xcm_addr_is_valid(in) == (prc == 0), "C12: xcm_addr_is_valid agrees with the parser at the name limit (an address make/parse accept is valid)");
+    CHECK(xcm_addr_is_supported(in) == (prc == 0), "C12: ... and so does xcm_addr_is_supported for the always-built UX transports");
+    return 0;
+}
+#endif
+
 #ifdef OP_PROTO
 int main(void)
 {
